@@ -233,4 +233,38 @@ example : fixArr (asc "[1] '[2]") = some (asc "ARRAY(1) '[2]") := by decide
 example : fixArr (asc "`a\\`,[1]") = some (asc "`a\\`,[1]") := by decide
 example : dq2bt (asc "`a\\`,\"b\"") = some (asc "`a\\`,`b`") := by decide
 
+/-! ### the two rewrites together -/
+
+/-- no option: the text reaches the parser untouched -/
+theorem applyDialect_off (s : List UInt8) : applyDialect false false s = .ok s := rfl
+
+/-- one option: exactly that rewrite -/
+theorem applyDialect_pg_only (s : List UInt8) : applyDialect true false s = dq2btE s := by
+  unfold applyDialect
+  cases dq2btE s <;> rfl
+
+theorem applyDialect_arr_only (s : List UInt8) : applyDialect false true s = fixArrE s := rfl
+
+/-- both options: the array rewrite runs on the OUTPUT of the quote rewrite (so a double-quoted identifier is already a
+    backtick identifier when the brackets are looked for), and a failure of either is the failure of `New` -/
+theorem applyDialect_both (s : List UInt8) : applyDialect true true s = (dq2btE s >>= fixArrE) := rfl
+
+/-- both options on a query in the Postgres spelling: when the native spelling has balanced active brackets, the parser
+    receives the native spelling with every array literal rewritten -/
+theorem applyDialect_both_spelling (q : List Tok) (hq : q.all Tok.ok = true) (hb : Balanced (renderBT q)) :
+    applyDialect true true (renderDQ q) = .ok (rewrite (renderBT q)) := by
+  have h1 := dq2bt_spelling q hq
+  have h1' : dq2btE (renderDQ q) = .ok (renderBT q) := by
+    unfold dq2bt toOption at h1
+    cases h : dq2btE (renderDQ q) with
+    | ok v => rw [h] at h1; simp at h1; rw [h1]
+    | error e => rw [h] at h1; simp at h1
+  rw [applyDialect_both, h1']
+  show fixArrE (renderBT q) = _
+  rw [fixArrE_eq, if_pos hb]
+
+/-- `SELECT "a" FROM t WHERE "a" IN [1, 2]` under both options -/
+example : toOption (applyDialect true true (asc "SELECT \"a\" FROM t WHERE \"a\" IN [1, 2]"))
+    = some (asc "SELECT `a` FROM t WHERE `a` IN ARRAY(1, 2)") := by decide
+
 end Genql.C17
